@@ -15,15 +15,21 @@ Definition grow_ok (cond : nat -> nat -> bool) (size : nat -> nat -> nat) : Prop
 Definition shrink_ok (cond : nat -> nat -> bool) (size : nat -> nat -> nat) : Prop :=
   forall nitems nslots, cond nitems nslots = true -> nitems <= size nitems nslots.
 
+(* decide the comparisons a policy makes, then linear arithmetic (a division by a literal is an
+   unknown of its own, which is enough for every policy that adds to or multiplies nitems) *)
+Ltac policy_cases :=
+  repeat match goal with
+         | |- context [?a <? ?b] => destruct (Nat.ltb_spec a b)
+         | |- context [?a <=? ?b] => destruct (Nat.leb_spec a b)
+         | |- context [?a =? ?b] => destruct (Nat.eqb_spec a b)
+         end.
+Ltac policy_tac := cbn [negb andb orb]; try split; intros; try discriminate; try lia.
+
 Lemma array_grow_ok : grow_ok array_grow_cond array_grow_size.
-Proof.
-  intros n s. unfold array_grow_cond, array_grow_size. split; intros H.
-  - lia.
-  - apply Nat.ltb_ge in H. exact H.
-Qed.
+Proof. intros n s. unfold array_grow_cond, array_grow_size. policy_cases; policy_tac. Qed.
 
 Lemma array_shrink_ok : shrink_ok array_shrink_cond array_shrink_size.
-Proof. intros n s _. unfold array_shrink_size. lia. Qed.
+Proof. intros n s. unfold array_shrink_cond, array_shrink_size. policy_cases; policy_tac. Qed.
 
 (* ------------------------------------------------------------------ memory helpers *)
 Section MemLemmas.
